@@ -50,7 +50,7 @@ PROPS = {
   'rule': '(a) findTile on generated directories (0..12 entries, runs, pointers, shared offsets, ids up to and beyond 2^63) at boundary queries '
           '(first/last id of each run, one before/after, offsets of 2^8/2^16/2^32/2^33 from each entry); (b) whole archives built by the harness '
           '(root-only to three leaf levels, mixed directories, uneven depth, gzip/none, dense and sparse, high zooms) queried through Server.Get and the CLI tile '
-          'command at the same boundary ids. Non-trivial: directory with > 1 entry / archive with >= 1 leaf level; distinct by case line',
+          'command at the same boundary ids; (c) directories of 12,000..16,000 entries (more than 64 KiB decoded), root-only under gzip and as leaves under gzip/none, queried at first/last/middle/absent ids. Non-trivial: directory with > 1 entry / archive with >= 1 leaf level; distinct by case line',
   'trusted_base': [GZIP, 'modelled, not verified: the event loop/caching between handler and bucket (C08/C09), net/http'],
   'assumptions': ['archives are well formed (wftree): directories strictly ascending, runs end before the next entry, leaf ids between the pointer id and the next entry id, at most three leaf levels'],
   'explanation': 'C04_find_tile_spec and C04_walk(_server) hold for every well-formed tree and every id < 2^63; the loop bounds of both Go walks are regenerated from the source; '
@@ -64,12 +64,15 @@ PROPS = {
           'searched so that the flat gzip root lands within +-100 bytes of the budget. Non-trivial: more entries than one leaf holds; distinct by case line Regular lists (given by parameters) whose pointer tile-ID deltas sit just below a varint size boundary at the first leaf size, one entry more than a whole number of leaves, budgets 120/170 that the first attempt just misses.',
   'trusted_base': [GZIP + '; for the theorems gzip is any serializer with a round trip',
                    'Flocq (float32 leaf-size sequence): the literal sequence of coq/Model/DirBuild.v is proved equal to the Flocq computation (Proofs/DirBuildF32.v, depends on the '
-                   'standard-library real-number axioms through Flocq); that float32(len)/3500 < 4096 for every len < 14,336,000 is checked at the boundary and by the harness, monotonicity of float32 division is not proved'],
+                   'standard-library real-number axioms through Flocq); C05_terminates_all (Proofs/LeafGrowth.v) uses the Flocq specifications of binary32 multiplication, division, comparison and integer '
+                   'conversion and assumes nothing about the start value beyond what the division gives; int(leafSize) is modelled as truncation, which is what Go does for finite values in range (all values met before the loop ends are below 2^64)'],
   'assumptions': ['a root directory with a single pointer fits the budget (true for every budget >= 64 bytes; below it the Go loop itself never terminates)',
                   'each serialized leaf is shorter than 2^32 bytes (Go truncates the pointer length to uint32)'],
-  'explanation': 'C05_root_fits/C05_within_16k/C05_structure hold for every entry list, serializer and leaf-size sequence; C05_terminates for fewer than 14,336,000 entries; '
-                 'the budgets and the 16384-byte first fetch are regenerated from convert.go/extract.go/server.go.',
-  'allowed_axioms': [],
+  'explanation': 'C05_root_fits/C05_within_16k/C05_structure hold for every entry list, serializer and leaf-size sequence; C05_terminates_all: for every entry count up to 2^62 the float32 '
+                 'sequence the Go loop walks (start max(float32(n)/3500, 4096), factor the binary32 nearest 1.2; Flocq) reaches, before anything overflows, a size that holds all entries, and a single '
+                 'pointer fits; C05_terminates is the same for the literal sequence below 14,336,000 entries; the loop constants, the budgets and the 16384-byte first fetch are regenerated from '
+                 'directory.go/convert.go/extract.go/server.go. The executable model compared with optimizeDirectories runs the float32 sequence (go_sizes).',
+  'allowed_axioms': ['sig_not_dec', 'sig_forall_dec', 'functional_extensionality_dep', 'classic'],
  },
  'C13': {
   'rule': 'valid unclustered archives written by the harness (1..20 entries, run lengths, shared offsets, a pool of few distinct contents so that equal contents sit at '
@@ -82,8 +85,8 @@ PROPS = {
                  '(tile data) with the real Cluster, and the oracle re-checks content map, declarations, metadata, structure and pmtiles.Verify on the output.',
  },
  'C15': {
-  'rule': 'valid archives written by the harness (2..13 entries, runs, shared offsets, clustered and unordered layouts, 0..2 leaf levels, gzip/none, plain and 16 KiB-padded layouts) '
-          'and every single-field / single-entry corruption of each: addressed/entries/contents +-1, min/max/center zoom, degenerate bounds, data/metadata length +-1, each section offset set to 0, '
+  'rule': 'valid archives written by the harness (2..13 entries, one in six a single entry addressing one tile, one in six fully deduplicated to one content; runs, shared offsets, clustered and unordered layouts, 0..2 leaf levels, gzip/none, plain and 16 KiB-padded layouts) '
+          'and every single-field / single-entry corruption of each: addressed/entries/contents +-1 and set to 0, min/max/center zoom, degenerate bounds, data/metadata length +-1, each section offset set to 0, '
           'file truncated/extended, clustered flag on an unordered archive, an entry moved outside the tile data, an entry shifted backwards to an unused offset. Archives written by the real Cluster and Convert (dedup on/off) from consistent inputs whose tiles sit around a zoom boundary with equal contents, so that runs cross it, also at the very end, must verify. All cases non-trivial; distinct by case line',
   'trusted_base': [GZIP, 'roaring64 bitmap modelled as a duplicate-free list of offsets', 'the local-file bucket and os.Stat (file size)'],
   'assumptions': ['directories are readable (the harness writes them); archives have at least one entry'],
@@ -117,7 +120,7 @@ PROPS = {
   'rule': 'archives over all tile types (incl. unknown 0/6/255) x tile compressions (incl. unknown) x zoom ranges, shared contents, metadata with unicode/nesting/HTML characters or {}, '
           'negative bounds, with and without public URL; requests: stored and absent tiles, zoom out of range, wrong extension, unknown archive, metadata, TileJSON, "/", unknown paths; '
           'methods GET/HEAD/POST/DELETE/OPTIONS/PUT; conditional headers If-None-Match (same/other/*) and If-Match (same/other). ETags compared across all responses of the run. '
-          'All cases non-trivial; distinct by case line A third of the archives carry metadata that is not a fixed point of JSON re-encoding (unsorted keys, whitespace, HTML characters, integers beyond 2^53, exponent notation); the metadata endpoint must return the stored bytes.',
+          'Every 200 tile response is also judged against the mapping tile type -> Content-Type, tile compression -> Content-Encoding written down in the harness (internal compression gzip/none varies independently). All cases non-trivial; distinct by case line A third of the archives carry metadata that is not a fixed point of JSON re-encoding (unsorted keys, whitespace, HTML characters, integers beyond 2^53, exponent notation); the metadata endpoint must return the stored bytes.',
   'trusted_base': ['net/http.ServeContent (conditional evaluation transcribed in Model/Http.v), httptest.ResponseRecorder', 'encoding/json and Go float formatting: TileJSON numbers are compared after rounding to E7',
                    'xxhash64: "different bodies => different ETag" is checked on the bodies of one run (no-collision assumption)',
                    'content type of archives with an UNKNOWN tile type is sniffed by net/http and not compared'],
@@ -129,7 +132,7 @@ PROPS = {
   'uses_generated': True,
   'rule': 'schedules over 1..3 archives (root-only to two leaf levels, mixed directories, gzip/none) and 2..7 concurrent tile requests (stored / absent tiles, wrong extension, missing archive) with a random '
           'release order of the blocked bucket calls; after every macro step the set of blocked calls and the completed requests of the real server are compared with the model. '
-          'Non-trivial: more than two requests; distinct by case line',
+          'Half as many schedules again start from a warm cache, replace the archive (1..3 times) and then run 2..5 concurrent requests, whose refused stale reads all purge and refetch; the coalescing oracle (no two identical header/directory fetches outstanding at once) judges every step. Non-trivial: more than two requests; distinct by case line',
   'trusted_base': ['the Go scheduler, channel semantics and real time are abstracted to an interleaving LTS at the granularity of loop messages and bucket calls (coq/Model/Server.v)',
                    'the scheduling bucket of the harness stands for the bucket contract of the property (tag per version, conditional reads honoured)',
                    'quiescence of the real server is detected from goroutine states (runtime.Stack)', GZIP],
@@ -141,7 +144,7 @@ PROPS = {
   'rule': 'schedules with 1..2 archives, warm or cold cache, 2..6 tile requests and 0..3 replacements (new versions with different sizes, layouts, leaf structures; occasional deletion) placed before or between '
           'the releases of blocked bucket calls; systematic schedules: one tile request, every placement of up to two replacements among its bucket calls x cold/warm cache x with/without a replacement completed beforehand, '
           'versions sharing tile ids and tile type but not layout; micro schedules: the event loop held inside the trace sink at one request\'s header lookup while another request\'s purging retry queues up '
-          '(oracle only, the executable model is macro-step). About one request in seven is a metadata or TileJSON request; every 200 is observed with its Content-Type/Content-Encoding; sequential request/replace sequences on the real local-directory and HTTP buckets (their own version tags); calls blocked with identical arguments are released together. Non-trivial: at least one replacement; distinct by case line',
+          '(oracle only, the executable model is macro-step). About one request in seven is a metadata or TileJSON request; every 200 is observed with its Content-Type/Content-Encoding; sequential request/replace sequences on the real local-directory and HTTP buckets (their own version tags; on the local directory the versions of every other run have equal file sizes and successive versions are published within the same second with different sub-second modification times); calls blocked with identical arguments are released together. Non-trivial: at least one replacement; distinct by case line',
   'trusted_base': ['the Go scheduler, channel semantics and real time are abstracted to an interleaving LTS at the granularity of loop messages and bucket calls (coq/Model/Server.v)',
                    'the scheduling bucket of the harness stands for the bucket contract of the property (tag per version, conditional reads honoured)',
                    'quiescence of the real server is detected from goroutine states (runtime.Stack)', GZIP],
@@ -150,7 +153,7 @@ PROPS = {
  },
  'C10': {
   'uses_generated': True,
-  'rule': 'fault schedules: each fault kind (generic error, not found, 412, 416, cancelled, mid-stream read error, short / empty / garbage bytes) at each of the first seven bucket-call positions of a script of 1..3 requests, '
+  'rule': 'fault schedules: each fault kind (generic error, not found, 412, 416, cancelled, mid-stream read error, half the range then io.ErrUnexpectedEOF as a dropped connection gives, short / empty / garbage bytes) at each of the first seven bucket-call positions of a script of 1..3 requests, '
           'cache sizes 0 / 1 / 64 MB, followed by recovery requests for the same and another archive; malformed objects: truncation at every length class, header-field corruption incl. values near 2^64, random bytes, '
           'corrupted magic, flipped bytes in directories, cuts inside the root directory. Every schedule runs in a child process: a crash or hang of the server is an observable outcome. '
           'Fault schedules are compared step by step with the model; malformed objects are judged by the oracle only. All cases non-trivial; distinct by case line Well-formed headers over root directories announcing 2^36..2^64-1 entries in a few bytes (plain and gzip-wrapped).',
@@ -163,7 +166,7 @@ PROPS = {
   'rule': 'RelevantEntries on directories with runs, leaf pointers and interval bitmaps (incl. intervals starting/ending exactly on entry boundaries), reencodeEntries on lists with shared contents, '
           'MergeRanges on range lists with pairwise distinct gaps (monotone and with backward jumps) x overfetch in {0,0.05,0.1,0.125,0.2,0.33,1,2.5,10}; end to end: clustered sources (runs crossing zoom '
           'boundaries, shared contents, root-only / one leaf level, gzip/none internals) x zoom ranges x overfetch x 1..4 threads x file/HTTP source, output compared with the model and re-run under four '
-          'other configurations for byte identity. Non-trivial: more than two entries/ranges or end to end; distinct by case line reencodeEntries additionally on heavily shared pooled contents thinned as a region does, with an oracle that copying the listed ranges puts the source bytes of every tile where its new entry points.',
+          'other configurations for byte identity, two of them against an origin that completes concurrent downloads out of order (headers and half a body at once, the rest after another download finished); half the end-to-end sources reuse low-zoom contents higher up and leave the low zooms out, so that many far-apart ranges are needed. Non-trivial: more than two entries/ranges or end to end; distinct by case line reencodeEntries additionally on heavily shared pooled contents thinned as a region does, with an oracle that copying the listed ranges puts the source bytes of every tile where its new entry points.',
   'trusted_base': [GZIP, 'roaring64 bitmap modelled as a list of half-open intervals', 'Flocq (float32 budget): theorems about budget_f32 depend on the standard-library real-number axioms through Flocq',
                    'errgroup/mutex work distribution abstracted to "plans executed in any order" (C07_schedule_independent)'],
   'assumptions': ['sources are clustered and well formed, with at most one leaf level (the Go code panics beyond)'],
